@@ -829,7 +829,23 @@ func cmdSelftest(args []string) {
 	n := fs.Int("n", 200, "")
 	seed := fs.Uint64("seed", 20261003, "")
 	dump := fs.Int("dump", -1, "print the full log of this run index")
+	from := fs.Int("from", 0, "first run index")
+	ref := fs.String("ref", "", "reference output of an earlier selftest: on the first differing line print this run's full log to stderr")
 	fs.Parse(args)
+	refLines := map[int]string{}
+	if *ref != "" {
+		b, err := os.ReadFile(*ref)
+		if err != nil {
+			die2("%v", err)
+		}
+		for _, l := range strings.Split(string(b), "\n") {
+			if sp := strings.IndexByte(l, ' '); sp > 0 {
+				if k, err := strconv.Atoi(l[:sp]); err == nil {
+					refLines[k] = l
+				}
+			}
+		}
+	}
 	p := props.Get(*propID)
 	if p == nil {
 		die2("unknown property %s", *propID)
@@ -839,7 +855,7 @@ func cmdSelftest(args []string) {
 		mb = 64
 	}
 	debug.SetMaxStack(mb << 20)
-	for i := 0; i < *n; i++ {
+	for i := *from; i < *n; i++ {
 		rs := sim.Mix(*seed, p.ID, uint64(i))
 		r := sim.NewRun(rs)
 		r.LogOn = true
@@ -863,6 +879,20 @@ func cmdSelftest(args []string) {
 			fmt.Fprintln(h, r.Viol.Class)
 		}
 		fmt.Fprint(h, r.Fingerprint(), r.Steps, r.Switches)
-		fmt.Printf("%d %s steps=%d viol=%v\n", i, hex.EncodeToString(h.Sum(nil)[:8]), r.Steps, r.Viol != nil)
+		line := fmt.Sprintf("%d %s steps=%d viol=%v", i, hex.EncodeToString(h.Sum(nil)[:8]), r.Steps, r.Viol != nil)
+		fmt.Println(line)
+		if want, ok := refLines[i]; ok && want != line {
+			fmt.Fprintf(os.Stderr, "selftest: run %d DIVERGES from the reference\n  reference: %s\n  this run : %s\n  trace %v\n", i, want, line, r.Trace)
+			for _, l := range r.Log {
+				fmt.Fprintln(os.Stderr, "   ", l)
+			}
+		}
+		if r.Viol != nil {
+			// a violation during the self-test is worth seeing in full (stderr does not take part in the comparison)
+			fmt.Fprintf(os.Stderr, "selftest: run %d violates: %s: %s\n", i, r.Viol.Class, r.Viol.Detail)
+			for _, l := range r.Log {
+				fmt.Fprintln(os.Stderr, "   ", l)
+			}
+		}
 	}
 }
